@@ -76,7 +76,8 @@ pub fn parse_sc(sc_tok: &str, w_tok: &str) -> Result<ScSpec, String> {
     }
     let mut clips = [0i32; 4];
     for k in 0..4 {
-        let c: i32 = parse(p[3 + k])?;
+        // `min` = MIN_SCORE of the tree under test (corpus lines stay valid when the constant changes)
+        let c: i32 = if p[3 + k] == "min" { MIN_SCORE } else { parse(p[3 + k])? };
         if !(c == MIN_SCORE || (-SANE..=0).contains(&c)) {
             return Err("clip penalty outside {MIN_SCORE} u [-1024,0]".into());
         }
